@@ -120,7 +120,7 @@ pub fn run(opts: &HashMap<String, String>) -> i32 {
     for id in first..first + count {
         let mut rng = crate::rng(seed ^ 0x5eed, id);
         let parser = parsers[(id as usize) % parsers.len()];
-        let lits = gen::lit_types(parser);
+        let lits = gen::lit_types_drive(parser);
         let lit = lits[rng.gen_range(0..lits.len())];
         let flag = rng.gen_range(0..5) == 0;
         let rid = id * 1000;
